@@ -157,7 +157,12 @@ def rule_one_per_violation(ctx, rid="R5.5"):
             done.add((f, k))
             cfg = cfg_of(f)
             ys = [n for n in cfg.live if n.kind == "yield"]
-            loose = [y for y in ys if not y.loops]
+
+            def forwards(y):
+                # `yield from <iterator>` hands on every error of the iterator: it is a loop in itself
+                v = y.ast.value if isinstance(y.ast, ast.Expr) else y.ast
+                return isinstance(v, ast.YieldFrom)
+            loose = [y for y in ys if not y.loops and not forwards(y)]
             if k in PER_ELEMENT:
                 if not ys:
                     r.fail("%s|no-yield" % f.qual, site(f), "keyword %r never yields" % k)
@@ -168,7 +173,7 @@ def rule_one_per_violation(ctx, rid="R5.5"):
                 else:
                     r.ok("%s [%s]" % (site(f), k), "%d yield(s), all inside loops" % len(ys))
             elif k in LOOSE_YIELDS:
-                inloop = [y for y in ys if y.loops]
+                inloop = [y for y in ys if y.loops or forwards(y)]
                 if len(loose) <= LOOSE_YIELDS[k] and inloop:
                     r.ok("%s [%s]" % (site(f), k), "%d yield(s) in the per-element form, %d summary form(s)" % (len(inloop), len(loose)))
                 else:
@@ -229,3 +234,6 @@ def run(ctx):
     # R5.7: the errors of `$ref` do not depend on its siblings: on the $ref-present path nothing else of the object is read (its id included)
     from .c02 import rule_ref_opaque
     rule_ref_opaque(ctx, "R5.7")
+    # R5.8: on every row of the applicator tables all sub-validation errors are forwarded once each, one own error per violation
+    from .applic import rule_applicators
+    rule_applicators(ctx, "R5.8", "errors")
